@@ -16,8 +16,12 @@ Correspondence (every run):
   points and compared with the framework's targets;
 * the eight DataPipe blocks: real block vs the model's `dp…` (and vs its functional twin, directly).
 
+Every framework comparison is a READ HISTORY (each index fetched at least twice, other indices in
+between, samples deep-copied at fetch time); agreement is required on every fetch.  The block cases
+cycle through the boundary modes both twins test (see BLOCK_MODES).
+
 Property oracle (independent of the model): the three frameworks' samples agree directly, in the
-region the statement covers.
+region the statement covers, on every fetch; every labelled frame gives the same number of samples.
 """
 import contextlib
 import copy
@@ -455,6 +459,8 @@ def close_pts(a, b, tol, atol=0.0):
     pixels) and then shifted to crop coordinates, so the rounding error is relative to the frame
     size, not to the (possibly small) final value."""
     torch = E["torch"]
+    if a.numel() == 0 and b.numel() == 0 and a.shape[0] == b.shape[0] == 0:
+        return None      # an empty list of animals carries no node count in the model's output
     if tuple(a.shape) != tuple(b.shape):
         return f"shape {tuple(a.shape)} vs {tuple(b.shape)}"
     if a.numel() == 0:
